@@ -9,6 +9,7 @@
    decisions.  All theorems hold for every history, of any length. *)
 From Coq Require Import List ZArith QArith Bool Lia.
 From GZ Require Import Lib.RollingWindow Lib.RollingWindowSpec C01.Model C01.Spec C01.Proofs C01.ProofsConc.
+From GZ Require Import C01.WrapModel C01.WrapProofs.
 Import ListNotations.
 Open Scope Z_scope.
 
@@ -192,6 +193,101 @@ Theorem interleaved_exact_accounting : forall cfg base calls sched tid,
      sum_fail (swin (i_st w)) now = n_fail vals /\ sum_drop (swin (i_st w)) now = n_drop vals).
 Proof. exact interleaved_accounting. Qed.
 Print Assumptions interleaved_exact_accounting.
+
+(* W  The wrappers that put the breaker in front of a downstream call (C01/WrapModel.v):
+   gRPC client / server (unary, stream) interceptors, the redis hook (command, pipeline, a
+   client on a real server), sqlx ExecCtx, and the REST BreakerHandler.
+   [wrap k rej ctxdone d]: what wrapper k does when the breaker rejects or not, the context
+   is done or not, and the downstream returns / panics d. *)
+
+(* the promise is resolved exactly once: nothing at all for a done context (wrappers using
+   the *Ctx entry), exactly one drop and no downstream call for a rejected call, which shows
+   the caller ErrServiceUnavailable (status Unavailable on the gRPC server side); exactly one
+   success or failure and exactly one downstream call otherwise, a success iff the downstream
+   did not panic and its result is acceptable for that wrapper *)
+Theorem wrapper_resolves_exactly_once : forall k rej ctxdone d,
+  through_breaker k = true ->
+  let r := wrap k rej ctxdone d in
+  let short := w_uses_ctx k && ctxdone in
+  (0 <= wr_succ r /\ 0 <= wr_fail r /\ 0 <= wr_drop r /\ wr_succ r + wr_fail r + wr_drop r <= 1) /\
+  (short = true ->
+     wr_invoked r = 0 /\ wr_succ r + wr_fail r + wr_drop r = 0 /\ wr_seen r = SCtxErr) /\
+  (short = false -> rej = true ->
+     wr_invoked r = 0 /\ wr_drop r = 1 /\ wr_succ r = 0 /\ wr_fail r = 0 /\
+     wr_seen r = rejected_seen k) /\
+  (short = false -> rej = false ->
+     wr_invoked r = 1 /\ wr_drop r = 0 /\ wr_succ r + wr_fail r = 1 /\
+     (wr_succ r = 1 <-> (d <> DPanic /\ w_acceptable k d = true)) /\
+     wr_seen r = pass_seen k d).
+Proof. exact wrap_once. Qed.
+Print Assumptions wrapper_resolves_exactly_once.
+
+(* the ignored redis commands (blpop) never touch the breaker *)
+Theorem wrapper_ignored_command_bypasses : forall rej ctxdone d,
+  let r := wrap WRedisIgnoredCmd rej ctxdone d in
+  wr_invoked r = 1 /\ wr_succ r + wr_fail r + wr_drop r = 0 /\ wr_seen r = pass_seen WRedisIgnoredCmd d.
+Proof. exact wrap_bypass. Qed.
+Print Assumptions wrapper_ignored_command_bypasses.
+
+(* which outcomes are failures, per wrapper *)
+Theorem wrapper_acceptability_table :
+  (forall d, codes_acceptable d = false <-> exists c, d = DStatus c /\ grpc_failure_code c = true) /\
+  (forall d, server_acceptable d = false <->
+     d = DCtxDeadline \/ d = DBreakerUnavailable \/ exists c, d = DStatus c /\ grpc_failure_code c = true) /\
+  (forall d, redis_acceptable d = true <->
+     d = DNil \/ d = DRedisNil \/ d = DWrappedRedisNil \/ d = DCtxCanceled \/ d = DWrappedCanceled) /\
+  (forall d, sql_acceptable d = true <->
+     d = DNil \/ d = DSqlNoRows \/ d = DSqlTxDone \/ d = DCtxCanceled \/ d = DWrappedCanceled \/ d = DSqlAcceptable) /\
+  (forall h, rest_accepts h = true <-> h_code h < 500) /\ rest_accepts (HPanic None) = true.
+Proof. exact acceptability_tables. Qed.
+Print Assumptions wrapper_acceptability_table.
+
+(* DeadlineExceeded 4, ResourceExhausted 8, Unimplemented 12, Internal 13, Unavailable 14, DataLoss 15 *)
+Theorem grpc_failure_codes : forall c,
+  grpc_failure_code c = true <-> (c = 4 \/ c = 8 \/ c = 12 \/ c = 13 \/ c = 14 \/ c = 15).
+Proof. exact grpc_table. Qed.
+Print Assumptions grpc_failure_codes.
+
+(* each wrapper IS the entry point DoWithAcceptable[Ctx] of the breaker model with the
+   downstream outcome classified by its table: same downstream run count, same mark in the
+   window log - so T1-T5 apply to calls made through the wrappers *)
+Theorem wrapper_is_breaker_entry_point : forall cfg w k (ctxdone : bool) d gap dur u,
+  through_breaker k = true ->
+  let cm := if w_uses_ctx k then (if ctxdone then CDone else CLive) else CNone in
+  let c := mkCall EDoAcc cm (w_outcome k d) gap dur u in
+  let now := w_clock w + gap in
+  let o := snd (step cfg w c) in
+  let w' := fst (step cfg w c) in
+  let rej := match o_verdict o with Some VReject => true | _ => false end in
+  let r := wrap k rej ctxdone d in
+  wr_invoked r = o_req o /\
+  w_marks w' = w_marks w ++
+    (if wr_drop r =? 1 then [(now, v_drop)]
+     else if wr_succ r =? 1 then [(now + dur, v_success)]
+     else if wr_fail r =? 1 then [(now + dur, v_fail)] else []).
+Proof. exact wrap_is_entry. Qed.
+Print Assumptions wrapper_is_breaker_entry_point.
+
+(* REST BreakerHandler: 503 without running the handler when rejected; otherwise the handler
+   runs once and the promise is resolved once, Accept iff the status is below 500 *)
+Theorem rest_resolves_exactly_once : forall rej h,
+  let r := rest_wrap rej h in
+  (rej = true -> rr_invoked r = 0 /\ rr_drop r = 1 /\ rr_succ r = 0 /\ rr_fail r = 0 /\ rr_seen r = RSCode 503) /\
+  (rej = false -> rr_invoked r = 1 /\ rr_drop r = 0 /\ rr_succ r + rr_fail r = 1 /\
+                  (rr_succ r = 1 <-> h_code h < 500)).
+Proof. exact rest_once. Qed.
+Print Assumptions rest_resolves_exactly_once.
+
+Theorem rest_is_allow_entry_point : forall cfg w r,
+  let c := rest_call r in
+  let o := snd (step cfg w c) in
+  let rr := rest_obs r o in
+  let now := w_clock w + hq_gap r in
+  w_marks (fst (step cfg w c)) = w_marks w ++
+    (if rr_drop rr =? 1 then [(now, v_drop)]
+     else if rr_succ rr =? 1 then [(now + hq_dur r, v_success)] else [(now + hq_dur r, v_fail)]).
+Proof. exact rest_is_entry. Qed.
+Print Assumptions rest_is_allow_entry_point.
 
 (* ---- non-vacuity: concrete histories meeting the hypotheses (today's constants) *)
 
